@@ -23,14 +23,64 @@ def run(prog, chk):
         "nested component transformations are composed as outer o inner with fontTools' Transform algebra (R15.3, shared with C02)",
         "anchor propagation: the only mutation of the composite's anchors is appending entries of to_add; an entry is only created when no existing anchor of the composite starts with that name; mark adjustment only rewrites existing entries; each position is the base anchor mapped through its own component's transformation (R15.4)",
         "transformations filter: included bases are transformed (recursively) before the composite is replayed; components of already transformed bases are compensated with the inverse matrix; all anchors, the advance width and height are mapped; matrix build order (R15.5)",
+        "components are only resolved into contours by util.decomposeCompositeGlyph; no other decomposing pen or component removal outside reviewed functions (R15.6, shared with C01 / C02)",
     ]
     chk.not_decided += ["affine arithmetic and exactness", "rendering equality itself"]
     c01.r012(prog, chk, "R15.1")
     r151b(prog, chk)
+    check_single_decomposer(prog, chk, "R15.6")
     r152(prog, chk)
     c02.r0210(prog, chk, "R15.3")
     r154(prog, chk)
     r155(prog, chk)
+
+
+# ----------------------------------------------------------------------------- decomposition is done in one place
+DECOMPOSING_PENS = {"DecomposingRecordingPointPen", "DecomposingRecordingPen", "DecomposingPointPen", "DecomposingPen", "DecomposingFilterPointPen", "DecomposingFilterPen"}
+REVIEWED_COMPONENT_REMOVAL = {
+    "decomposeCompositeGlyph": "the one decomposition helper (components are drawn through the pen first)",
+    "TransformationsFilter.filter": "outline recorded, cleared and replayed through the transforming pen (components are re-added)",
+    "_flattenGlyphComponents": "components cleared and re-added flattened",
+    "swap_glyph_names": "instantiator: outlines exchanged through a temporary glyph",
+}
+
+
+def check_single_decomposer(prog, chk, rule: str):
+    """Components are resolved into contours by `util.decomposeCompositeGlyph` only (the
+    reviewed implementation: reverses flipped components at every nesting level, honours
+    include / decomposeNested).  Any other decomposing pen or component removal in the
+    package is a second implementation whose behaviour nothing here vouches for."""
+    ix = prog.ix
+    n = 0
+    for fi in ix.functions.values():
+        for c in A.body_nodes(fi.node):
+            if not isinstance(c, ast.Call):
+                continue
+            name = A.callee_name(c)
+            if name in DECOMPOSING_PENS:
+                n += 1
+                ok = fi.short == "decomposeCompositeGlyph"
+                chk.ob(rule, f"{fi.short}|{name}(...)", ok, where(fi, c), detail="decomposing pen constructed in the decomposition helper only",
+                       message=f"{fi.short} decomposes components with its own {name} instead of util.decomposeCompositeGlyph: flipped components at deeper nesting levels, "
+                               f"include / decomposeNested and missing components are handled by code that is not the reviewed helper")
+            elif name in ("removeComponent", "clearComponents") and isinstance(c.func, ast.Attribute):
+                n += 1
+                ok = fi.short in REVIEWED_COMPONENT_REMOVAL
+                if ok:
+                    chk.exempt(rule, f"{fi.short}|{A.keytext(fi.node, c)}", REVIEWED_COMPONENT_REMOVAL[fi.short])
+                chk.ob(rule, f"{fi.short}|{A.keytext(fi.node, c)}", ok, where(fi, c), detail=REVIEWED_COMPONENT_REMOVAL.get(fi.short, ""), nontrivial=False,
+                       message=f"{fi.short} removes components from a glyph (`{T(c, 50)}`) outside the reviewed functions: a second, unreviewed way of resolving / dropping components")
+    # the filters that decompose do so through the helper
+    for q in ("ufo2ft.filters.decomposeComponents.DecomposeComponentsFilter", "ufo2ft.filters.decomposeComponents.DecomposeComponentsIFilter",
+              "ufo2ft.filters.skipExportGlyphs.SkipExportGlyphsFilter", "ufo2ft.filters.skipExportGlyphs.SkipExportGlyphsIFilter"):
+        m = ix.get_class(q).methods.get("filter")
+        need(m is not None, f"{q}.filter not found")
+        cs = [c for c in A.body_nodes(m.node) if isinstance(c, ast.Call) and prog.is_call_to(m, c, "ufo2ft.util.decomposeCompositeGlyph")]
+        n += 1
+        chk.ob(rule, f"{m.short}|decomposes through util.decomposeCompositeGlyph", len(cs) == 1, where(m), detail=T(cs[0], 80) if cs else "",
+               message=f"{m.short} no longer resolves components through util.decomposeCompositeGlyph")
+    chk.minimum(rule, 10)
+    return n
 
 
 # ----------------------------------------------------------------------------- R15.1b
@@ -257,6 +307,9 @@ def r155(prog, chk):
 
 
 MUTANTS = [
+    M("static decompose filter re-implemented with a recording pen (seeded C02c)", "ufo2ft/filters/decomposeComponents.py", "DecomposeComponentsFilter.filter",
+      "decomposeCompositeGlyph(glyph, self.context.glyphSet)",
+      "rec = DecomposingRecordingPointPen(self.context.glyphSet)\nglyph.drawPoints(rec)\nglyph.clearComponents()\nrec.replay(glyph.getPointPen())", rule="R15.6"),
     M("decomposition keeps the drawn component", "ufo2ft/util.py", "decomposeCompositeGlyph", "glyph.removeComponent(component)", "pass", rule="R15.1b"),
     M("components with any offset count as transformed", "ufo2ft/filters/decomposeTransformedComponents.py", "_isTransformed",
       "component.transformation[:4] != IDENTITY_2x2", "tuple(component.transformation) != tuple(Identity)", rule="R15.2"),
